@@ -224,7 +224,7 @@ def h_eq(env, L, R, pairs, canary=False):
         c = _new(R)
         c.terms = {t: (v + 1 if i == 0 else v) for i, (t, v) in enumerate(a.terms.items())}
         sa, sb = snapshot(a), snapshot(b)
-        expect_same = not ({L, R} == {"H", "H2"})     # annotated with different mappings: documented False
+        expect_same = {L, R} not in ({"H", "H2"}, {"F", "Fa"})     # different annotations: documented to compare unequal
         if canary:
             expect_same = not expect_same
         for other, expect, what in ((b, expect_same, "equal terms"), (c, False, "a different coefficient"))[:1 if canary else 2]:
@@ -554,6 +554,9 @@ def shapes(tier, seed):
     for L, R in (("H", "Q"), ("H", "oQ"), ("Q", "H"), ("oQ", "H"), ("Hb", "Q"), ("H", "H"), ("H", "Hb"), ("H", "H2"), ("Q", "Q")):
         name = f"qham/eq/{L},{R}"
         out.append(Shape(name, h_eq, dict(L=L, R=R, pairs=pick_pairs(QUBIT_POOL, 3 if tier == "quick" else 8, sub(name))), modules=MODS))
+    for L, R in (("F", "F"), ("Fa", "Fa"), ("F", "Fa"), ("Fa", "F"), ("F", "oF"), ("oF", "F")):
+        name = f"fermion/eq/{L},{R}"
+        out.append(Shape(name, h_eq, dict(L=L, R=R, pairs=pick_pairs(FERMI_POOL, 3 if tier == "quick" else 8, sub(name))), modules=MODS))
     # documented rejections
     for fam, L, R, pool in (("fermion", "F", "Fa", FERMI_POOL), ("fermion", "Fa", "F", FERMI_POOL), ("fermion", "Fa", "oF", FERMI_POOL),
                             ("qubit", "H", "H2", QUBIT_POOL)):
